@@ -1,4 +1,61 @@
+/-
+  C17 — inherent mode: the semantic model is the one of trait mode; the header is `ImplGroupId [None, self_ty]`
+  (no trait path). Corollaries of the refinement theorems and of C16.
+-/
 import DisjointImpls.Lemmas.Refine
+import DisjointImpls.Props.C16
 namespace DI
-theorem C17_placeholder : (1 : Nat) = 1 := rfl
+
+/-- the generated inherent impls refine the user's blocks: a member is selected for a query exactly when its
+    block applies (the statement of C02; nothing in it depends on the header having a trait path) -/
+theorem C17_refines (W : World) (F : Family) (m : Member) (q : T)
+    (hm : memberOK F m = true) (hw : WorldTotal W F) (hθ : ThetaCovers F m) (hs : SizedCompat W F m) :
+    genSel W F m q ↔ applies W m.blk q :=
+  ⟨gen_sub_spec W F m q, spec_sub_gen W F m q hm hw hθ hs⟩
+
+/-- no items for self types no block matches: if no member block applies to `q`, no member is selected -/
+theorem C17_no_items_for_unmatched (W : World) (F : Family) (q : T)
+    (h : ∀ m ∈ F.members, ¬ applies W m.blk q) : ∀ m ∈ F.members, ¬ genSel W F m q :=
+  fun m hm hg => h m hm (gen_sub_spec W F m q hg)
+
+/-- in inherent mode a selected member's self type instantiates exactly to the queried self type -/
+theorem C17_self_type_exact (W : World) (F : Family) (m : Member) (s s' : T)
+    (hh : m.blk.hdr = .node "ImplGroupId" [] [.node "None" [] [], s]) :
+    genSel W F m (.node "ImplGroupId" [] [.node "None" [] [], s']) → ∃ ρ, noEx ρ ∧ inst ρ s = s' := by
+  intro h
+  obtain ⟨ρ, h0, _, h2⟩ := C16_trait_args_exact W F m _ s _ s' hh h
+  exact ⟨ρ, h0, h2⟩
+
+namespace Coexist
+/-- `Wr<_ŠČ0, N>` as a self type: a type argument and a const argument (a literal) -/
+def wr (lit : String) : T :=
+  .node "Type::Path" [] [.node "Wr" [] [.node "GenericArgument::Type" [] [.tparam "_ŠČ0"],
+    .node "GenericArgument::Const" [] [.node "Expr::Lit" [lit] []]]]
+def hdr (lit : String) : T := .node "ImplGroupId" [] [.node "None" [] [], wr lit]
+
+/-- headers that differ in a const argument have no common instance -/
+theorem no_common_instance (τ1 τ2 : Subst) (n1 : noEx τ1) (n2 : noEx τ2) : inst τ1 (hdr "1") ≠ inst τ2 (hdr "2") := by
+  intro h
+  simp only [hdr, wr, inst_node τ1 n1, inst_node τ2 n2, instL] at h
+  simp at h
+end Coexist
+
+/-- inherent impl groups for `Wr<_ŠČ0, 1>` and `Wr<_ŠČ0, 2>` coexist: no query is answered through both families -/
+theorem C17_coexist (W : World) (F1 F2 : Family) (m1 m2 : Member) (q : T)
+    (h1 : F1.hdr = Coexist.hdr "1") (h2 : F2.hdr = Coexist.hdr "2") :
+    genSel W F1 m1 q → ¬ genSel W F2 m2 q := by
+  apply C16_independent_instantiations
+  rintro ⟨τ1, τ2, n1, n2, h⟩
+  rw [h1, h2] at h
+  exact Coexist.no_common_instance τ1 τ2 n1 n2 h
+
+/-- non-vacuity: an inherent-mode family (`impl<T: Dispatch<Group = GroupA>> Wr<T, 1> { … }`) satisfying the decidable
+    hypothesis of `C17_refines`, with the header used in `C17_coexist` -/
+example :
+    let key : Key := ⟨.tparam "_ŠČ0", .node "Dispatch" [] [], "Group"⟩
+    let blk : Block := ⟨Coexist.hdr "1", [⟨.tparam "_ŠČ0", .node "Dispatch" [] [], [("Group", .node "GroupA" [] [])]⟩], ["_ŠČ0"]⟩
+    let m : Member := ⟨blk, [("_ŠČ0", .identity)], [some (.node "GroupA" [] [])]⟩
+    let F : Family := ⟨Coexist.hdr "1", [key], ["_ŠČ0"], [m]⟩
+    memberOK F m = true ∧ F.hdr = Coexist.hdr "1" := by decide
+
 end DI
